@@ -213,7 +213,7 @@ def run_property(pid, tier, seed, replay=None):
         corr_runs.append(("corr_pysem.py", [PY, os.path.join(VERIF, "harness", "corr_pysem.py"), "--prop", pid, "--tier", tier, "--seed", str(seed)], "corr_pysem.json"))
     for cname, ccmd, cfile in corr_runs:
         cout = os.path.join(bdir, cfile)
-        rc, out, err, dt = sh(ccmd + ["--out", cout, "--builddir", bdir], cfg.get("corr_timeout", 600 if tier == "quick" else 2400), cwd=VERIF, env=env)
+        rc, out, err, dt = sh(ccmd + ["--out", cout, "--builddir", bdir], cfg.get("corr_timeout", 1800 if tier == "quick" else 5400), cwd=VERIF, env=env)
         log.append("%s rc=%d %.1fs" % (cname, rc, dt))
         if rc != 0 or not os.path.exists(cout):
             broken.append(dict(kind="correspondence", name=cname, detail=(out + err)[-1200:]))
